@@ -18,7 +18,8 @@ fn len(disconnect: &Disconnect, properties: &Option<DisconnectProperties>) -> us
         let properties_len_len = len_len(properties_len);
         length += properties_len_len + properties_len;
     } else {
-        length += 1;
+        length += 1; // Disconnect Reason Code
+        length += 1; // Property Length (zero), written below
     }
 
     length
@@ -55,7 +56,12 @@ pub fn read(
     let disconnect = Disconnect {
         reason_code: reason(reason_code)?,
     };
-    let properties = properties::read(&mut bytes)?;
+    // the property length may be omitted when there are no properties
+    let properties = if bytes.has_remaining() {
+        properties::read(&mut bytes)?
+    } else {
+        None
+    };
 
     Ok((disconnect, properties))
 }
@@ -69,7 +75,8 @@ pub fn write(
 
     let length = len(disconnect, properties);
 
-    if length == 2 {
+    // a normal disconnection without properties is just the fixed header
+    if disconnect.reason_code == DisconnectReasonCode::NormalDisconnection && properties.is_none() {
         buffer.put_u8(0x00);
         return Ok(length);
     }
